@@ -83,11 +83,13 @@ def feed_codes(state, codes):
                 i += 1          # lone 38/48/58 contributes nothing, reading continues
     return st
 
+BLANKS = ' \t\n\r\x0b\x0c\x1c\x1d\x1e\x1f'
+
 def parse_params(p):
     """parameter string of an SGR sequence -> list of ints / None (not a number)"""
     out = []
     for item in p.split(';'):
-        item = item.strip(' \t\n\r\x0b\x0c\x1c\x1d\x1e\x1f')
+        item = item.strip(BLANKS)
         if item == '':
             out.append(0)
         elif item.isascii() and item.isdigit():
@@ -166,7 +168,7 @@ def is_group(txt):
 def is_groups(txt):
     """a `;`-join of complete parameter groups (e.g. the verbatim `1;32`): joining such settings with
     `;` cannot fuse or split a group, so the terminal reads exactly their concatenated codes"""
-    items = txt.split(';')
+    items = [it.strip(BLANKS) for it in txt.split(';')]      # blank padding of a number does not change its reading
     if not all(it.isascii() and it.isdigit() for it in items):
         return False
     cs = [int(it) for it in items]
